@@ -1810,7 +1810,8 @@ func (s *Store) ExecuteTransaction(transaction *Transaction) error {
 			return errors.New("no dataset " + k)
 		}
 
-		err = ds.(*Dataset).updateDataset(v, nil)
+		// core.Dataset applies the public namespaces of the meta entities it was given
+		err = ds.(*Dataset).updateDataset(v, transaction.DatasetEntities[k])
 		if err != nil {
 			return err
 		}
